@@ -51,3 +51,9 @@ Theorem C09_generated_begin_checks_are_the_model : forall st s i t m, begin_enab
    if max_advance st s' i =? m then Ok s' else Err (EMaxAdv i)).
 Proof. exact tie_begin_checks. Qed.
 Print Assumptions C09_generated_begin_checks_are_the_model.
+
+(* the guard read off the regenerated test itself: sim_process refuses a popped step iff one of its sub-step counters (every
+   tier below the first) has reached max_loop_iterations - the first tier, the simulation time, never counts *)
+Theorem C09_generated_loop_guard_iff : forall m t, loop_guard m t = true <-> exists x, In x (tl t) /\ m <= x.
+Proof. exact generated_loop_guard_iff. Qed.
+Print Assumptions C09_generated_loop_guard_iff.
